@@ -61,7 +61,8 @@ class RealLife:
                 ops.append({"op": "actor_unrelated_commit"})
             else:
                 ops.append({"op": "actor_switch_branch", "name": rng.choice(["feature1", "maint", "maint", "main", "main", "hotfix"])})
-        return {"project": project, "ops": ops}
+        # the checkout's `.git` may be a file pointing elsewhere (linked worktree, submodule, --separate-git-dir)
+        return {"project": project, "ops": ops, "gitfile": rng.random() < 0.25}
 
     def run(self, case, ctx):
         project = case["project"]
@@ -70,8 +71,10 @@ class RealLife:
         invoker.write_tree(w.dir, {"unrelated_notes.txt": b"actor notes\n"})
         tree, pattern = w.vtree, w.vpattern
         clock = dt.date.fromisoformat(project["epoch"])
-        rg = realgit.RealGit(w.dir, clock, remote=True)
+        rg = realgit.RealGit(w.dir, clock, remote=True, gitfile=bool(case.get("gitfile")))
         rg.init()
+        if case.get("gitfile"):
+            ctx.probe("dot_git_is_a_file")
         state = dict(project["state"])
         text = rp.render(tree, state)
         branch_ver = {"main": (state, text)}   # what the files of each branch show
